@@ -1,13 +1,14 @@
 #!/bin/bash
 # usage: try_mutant.sh <patch.diff> <property> [more properties...]
-# Applies a seeded change to /repo (which must be clean), runs the quick checks, and restores /repo.
+# Applies a seeded change to a scratch copy of /repo under /tmp (never to /repo itself), runs the
+# quick checks on the copy (govc --repo) and removes the copy.
 set -u
 patch=$1; shift
-if [ -n "$(git -C /repo status --porcelain)" ]; then echo "REPO NOT CLEAN; refusing"; exit 3; fi
-git -C /repo apply "$patch" || { echo "patch does not apply"; exit 3; }
-rc=0
+WT=$(mktemp -d /tmp/trymut_XXXXXX)
+cp -r /repo/. $WT/
+( cd $WT && git checkout -q -- . && git clean -fdq )
+git -C $WT apply "$patch" || { echo "patch does not apply"; rm -rf $WT; exit 3; }
 for p in "$@"; do
-  /verif/bin/govc check --property "$p" --no-evidence 2>&1 | grep -E "VIOLATION|FAIL|TOOL|ERROR|^$p " | cut -c1-220
+  /verif/bin/govc check --property "$p" --no-evidence --repo $WT 2>&1 | grep -E "VIOLATION|FAIL|TOOL|ERROR|^$p " | cut -c1-220
 done
-git -C /repo checkout -- . 
-git -C /repo status --porcelain
+rm -rf $WT
